@@ -449,6 +449,20 @@ def find_stmt_block(fd, spec):
     anchor, extent = spec
     norm = lambda st: _ast.unparse(st).replace('\n', ' ')
     found = []
+    if isinstance(anchor, tuple) and anchor[0] == 'after':
+        # (('after', A), ('before', B)): the statements strictly between the statement that starts with A and the
+        # first later statement of the same list that starts with B - an anchor on the surroundings of a block, which
+        # keeps the fragment applicable when the block itself is rewritten
+        for n in _ast.walk(fd):
+            for fld in ('body', 'orelse', 'finalbody'):
+                blk = getattr(n, fld, None)
+                if isinstance(blk, list):
+                    for i, st in enumerate(blk):
+                        if isinstance(st, _ast.stmt) and norm(st).startswith(anchor[1]):
+                            ends = [j for j in range(i + 1, len(blk)) if norm(blk[j]).startswith(extent[1])]
+                            if ends and ends[0] > i + 1:
+                                found.append(blk[i + 1:ends[0]])
+        return found[0] if len(found) == 1 else None
     for n in _ast.walk(fd):
         for fld in ('body', 'orelse', 'finalbody'):
             blk = getattr(n, fld, None)
